@@ -2,7 +2,7 @@
     real llm.EstimateGPULayers / llm.PredictServerFit / discover.GpuInfoList.ByLibrary.  props/c16.py renders
     every case as one closed [bool] term. *)
 From Coq Require Import List NArith ZArith Bool.
-From V Require Import Common.Bytes Mem.Model.
+From V Require Import Common.Bytes Mem.Model Mem.Sched.
 Import ListNotations.
 Open Scope N_scope.
 
@@ -73,3 +73,44 @@ Definition clauses_hold (gs : list gpu) (m : model) (o : opts) (r : result) : bo
   && ((o_numgpu o <? 0)%Z || (Z.of_N (r_layers r) <=? o_numgpu o)%Z)
   && (match r_split r with [] => true | s => sum_x s =? r_layers r end)
   && (r_vram r <=? r_total r).
+
+(** ** the scheduler path (Mem/Sched.v) *)
+Definition eqb_xgpu (a b : xgpu) : bool :=
+  eqb_str (x_id a) (x_id b) && (x_total a =? x_total b) && eqb_gpu (x_g a) (x_g b).
+
+Fixpoint eqb_xgpus (a b : list xgpu) : bool :=
+  match a, b with
+  | [], [] => true
+  | x :: a', y :: b' => eqb_xgpu x y && eqb_xgpus a' b'
+  | _, _ => false
+  end.
+
+(** the model inputs per parallel setting, as an association list *)
+Fixpoint mp_of (tbl : list (Z * model)) (d : model) (p : Z) : model :=
+  match tbl with
+  | [] => d
+  | (k, m) :: t => if (k =? p)%Z then m else mp_of t d p
+  end.
+
+(** observed: the chosen GPU list with the parallel setting (or nil), and the estimate computed for it *)
+Definition chk_choice (o : opts) (mp : Z -> model) (model_res : option (Z * list xgpu))
+           (obs_res : option (Z * list xgpu)) (est : option obs) : bool :=
+  match model_res, obs_res with
+  | None, None => true
+  | Some (p, c), Some (p', c') =>
+    (p =? p')%Z && eqb_xgpus c c' &&
+    match est with Some ob => same (plan_for c (mp p) o) ob | None => match c with [] => true | _ => false end end
+  | _, _ => false
+  end.
+
+Definition chk_sched_loaded (rs : list runner) (gpus : list xgpu) (spread : bool) (np : Z) (tbl : list (Z * model)) (d : model)
+           (o : opts) (filtered avail : list xgpu) (obs_res : option (Z * list xgpu)) (est : option obs) : bool :=
+  let mp := mp_of tbl d in
+  let '(av, r) := sched_loaded rs gpus spread np mp o in
+  eqb_xgpus (filter_loading rs gpus) filtered && eqb_xgpus av avail && chk_choice o mp r obs_res est.
+
+Definition chk_sched_first (gpus : list xgpu) (spread : bool) (np : Z) (tbl : list (Z * model)) (d : model)
+           (o : opts) (full : bool) (obs_res : Z * list xgpu) (est : option obs) : bool :=
+  let mp := mp_of tbl d in
+  Bool.eqb full (match pick_full gpus spread np mp o with Some _ => true | None => false end) &&
+  chk_choice o mp (Some (sched_first gpus spread np mp o)) (Some obs_res) est.
